@@ -401,6 +401,11 @@ def run_tier(tier, seed, sim_dir=SIM_DIR, repo=REPO, write_evidence=True, jobs=N
             log(f"HARNESS-ERROR: run {r['job']['id']} argv={' '.join(runner.argv_of(r['job']))} seed={r['job']['miri_seed']}: {r['status']}: {r.get('why')}")
             log("  " + "\n  ".join((r.get("stderr") or "").strip().splitlines()[-25:]))
         rc = 2
+    ranks = [r["probes"]["rank"] for r in recs if r["status"] == "ok" and r.get("probes", {}).get("rank")]
+    worst_rank = max(ranks, key=lambda x: x["deficiency"]) if ranks else None
+    if worst_rank and worst_rank["deficiency"] >= 20:
+        log(f"NOTE: (probe, not a verdict) {worst_rank['draws']} draws of n={worst_rank['n']} in one run span only {worst_rank['rank']} of {worst_rank['full_rank']} "
+            f"GF(2) dimensions: the words of the generator are linearly tied to one another (every observation the property names may still hold)")
     if write_evidence:
         write_evidence_file(tier, seed, jobs, recs, audit, time.time() - t0, reported, stopped, bt, repo)
     ok = [r for r in recs if r["status"] == "ok"]
@@ -435,6 +440,8 @@ def write_evidence_file(tier, seed, jobs, recs, audit, wall, reported, stopped, 
     bat_notes = [f"call {cid}: {len(s)} different digests" for cid, s in sorted(bat.items()) if len(s) > 1]
     for n in bat_notes:
         log(f"NOTE: schedule/history dependence observed in battery {n}; the not-applicable classification of the pure-function properties no longer holds")
+    ranks = [r["probes"]["rank"] for r in ok if r["probes"].get("rank")]
+    worst_rank = max(ranks, key=lambda x: x["deficiency"]) if ranks else None
     virt = sum(r.get("virt_ns", 0) for r in ok) / 1e9
     ones = sum(r["probes"]["ones"] for r in ok)
     bits = sum(r["probes"]["bits"] for r in ok)
@@ -493,6 +500,7 @@ def write_evidence_file(tier, seed, jobs, recs, audit, wall, reported, stopped, 
             "literal_clauses_completed": literal,
             "probes_not_verdicts": {"ones_fraction_in_64bit_words": round(ones / bits, 6) if bits else None,
                                     "duplicate_64bit_words": sum(r["probes"]["dup_words64"] for r in ok),
+                                    "gf2_rank_of_multiword_draws(worst run)": worst_rank, "runs_with_rank_probe": len(ranks),
                                     "words64": sum(r["probes"]["words64"] for r in ok)},
             "applicability_monitor": {"battery_calls": sum(r.get("battery_calls", 0) for r in ok), "call_ids": len(bat),
                                       "calls_with_more_than_one_digest": bat_notes},
